@@ -183,6 +183,18 @@ func (fl *flow) collect(n ast.Node) []event {
 				}
 			}
 		}
+		// a method of the mock called on the receiver (mock.ResetXCalls(), mock.XCalls() ...)
+		if sel, ok := fun.(*ast.SelectorExpr); ok {
+			if s, ok := u.Info.Selections[sel]; ok && s.Kind() == types.MethodVal {
+				if rp, ok := u.recvPath(sel.X, fl.f.Recv); ok && rp == "recv" {
+					for _, a := range c.Args {
+						visitExpr(a)
+					}
+					add(event{kind: evCall, detail: "method " + sel.Sel.Name + " of the same mock (it takes locks itself)", node: c, call: c})
+					return
+				}
+			}
+		}
 		// call through a func-typed field of the receiver
 		if fp, ok := u.recvPath(fun, fl.f.Recv); ok && fp != "recv" {
 			if _, isSig := u.Info.TypeOf(fun).Underlying().(*types.Signature); isSig {
@@ -509,6 +521,9 @@ func (fl *flow) lockset() *lockResult {
 			case evCallback:
 				if report {
 					res.atEvent[e.call] = st.clone()
+					if len(st.may) > 0 {
+						res.problems = append(res.problems, problem{"K-LOCK/held-at-callback", "callback-in-cs", fmt.Sprintf("a configured function is invoked while %s may be held", setStr(st.may)), e.node, nil})
+					}
 				}
 			case evCall, evGo, evChan, evFuncLit:
 				if report && len(st.may) > 0 {
